@@ -47,7 +47,7 @@ type ans = AN of n | AB of bool | AC of int
 let () =
   List.iter (fun line ->
     match split_ws line with
-    | id :: comp :: rest ->
+    | id :: comp :: rest -> with_budget id (fun () ->
       let (t, r1) = parse_vt rest in
       let (ops, tail) = match r1 with ";" :: r -> parse_ops [] r | _ -> failwith "bad case" in
       (match run_prog t (comp = "1") ops with
@@ -120,5 +120,5 @@ let () =
          if !mismatch then Buffer.add_string buf " MEMO_MISMATCH";
          print_endline (Buffer.contents buf)
        | OutOfFuel -> print_endline (id ^ " OUT_OF_FUEL")
-       | Panic -> print_endline (id ^ " PANIC"))
+       | Panic -> print_endline (id ^ " PANIC")))
     | _ -> ()) (read_lines ())
